@@ -167,7 +167,7 @@ Proof.
   intros Hl Ho. split; [unf; by rs|].
   apply (undo1_mut _ _ (JBalance a (a_bal (o_data o))) a KBalance (a_bal (o_data o))); [done|done|unf; by rs|..].
   - unf. rs. by rewrite lookup_insert insert_insert.
-  - unf. destruct j; rs. rewrite lookup_insert. rs. f_equal.
+  - unf. destruct j; rs. unfold with_obj; rs. rewrite lookup_insert. rs. f_equal.
     rewrite insert_insert. apply insert_id. rewrite Ho. f_equal. by destruct o as [? [] ? ? ? ?].
 Qed.
 
@@ -178,7 +178,7 @@ Proof.
   intros Hl Ho. split; [unf; by rs|].
   apply (undo1_mut _ _ (JNonce a (a_nonce (o_data o))) a KNonce (a_nonce (o_data o))); [done|done|unf; by rs|..].
   - unf. rs. by rewrite lookup_insert insert_insert.
-  - unf. destruct j; rs. rewrite lookup_insert. rs. f_equal.
+  - unf. destruct j; rs. unfold with_obj; rs. rewrite lookup_insert. rs. f_equal.
     rewrite insert_insert. apply insert_id. rewrite Ho. f_equal. by destruct o as [? [] ? ? ? ?].
 Qed.
 
@@ -189,7 +189,7 @@ Proof.
   intros Hl Ho. split; [unf; by rs|].
   apply (undo1_mut _ _ (JCode a (a_code (o_data o))) a KCode (a_code (o_data o))); [done|done|unf; by rs|..].
   - unf. rs. by rewrite lookup_insert insert_insert.
-  - unf. destruct j; rs. rewrite lookup_insert. rs. f_equal.
+  - unf. destruct j; rs. unfold with_obj; rs. rewrite lookup_insert. rs. f_equal.
     rewrite insert_insert. apply insert_id. rewrite Ho. f_equal. by destruct o as [? [] ? ? ? ?].
 Qed.
 
@@ -215,7 +215,7 @@ Proof.
   intros Hl Ho Hd. split; [unf; by rs|].
   apply (undo1_mut _ _ (JStorage a k (get_state j a o k) (committed j a o k)) a KStorage 0);
     [done|done|unf; by rs|unf; by rs|].
-  unf. destruct j; rs. rewrite lookup_insert. rs. f_equal.
+  unf. destruct j; rs. unfold with_obj; rs. rewrite lookup_insert. rs. f_equal.
   rewrite insert_insert. apply insert_id. rewrite Ho. f_equal.
   apply set_state_undo. unfold get_state. destruct (o_dirty o !! k) eqn:E; [|done].
   split; [done|]. by apply Hd.
@@ -227,7 +227,7 @@ Lemma undo_self_destruct j a o :
 Proof.
   intros Hl Ho Hs. split; [unf; by rs|].
   apply (undo1_mut _ _ (JSelfDestruct a) a KSelfDestruct 0); [done|done|unf; by rs|unf; by rs|].
-  unf. destruct j; rs. rewrite lookup_insert. rs. f_equal.
+  unf. destruct j; rs. unfold with_obj; rs. rewrite lookup_insert. rs. f_equal.
   rewrite insert_insert. apply insert_id. rewrite Ho. f_equal. destruct o; simpl in *. by subst.
 Qed.
 
@@ -237,7 +237,7 @@ Lemma undo_create_contract j a o :
 Proof.
   intros Ho Hs. split; [unf; by rs|].
   apply undo1_nomut; [done|unf; by rs|].
-  unf. destruct j; rs. rewrite lookup_insert. rs. f_equal.
+  unf. destruct j; rs. unfold with_obj; rs. rewrite lookup_insert. rs. f_equal.
   rewrite insert_insert. apply insert_id. rewrite Ho. f_equal. destruct o; simpl in *. by subst.
 Qed.
 
